@@ -423,7 +423,7 @@ func (e *Engine) stub8(fn *ssa.Function, args []any) (any, bool) {
 	case "(*sync.Map).Load":
 		m := e.syncMap(args[0])
 		for i, k := range m.keys {
-			if k == args[1].(IfaceV).V {
+			if e.keyEq(k, args[1].(IfaceV).V) {
 				return Tuple{m.vals[i], true}, true
 			}
 		}
@@ -431,7 +431,7 @@ func (e *Engine) stub8(fn *ssa.Function, args []any) (any, bool) {
 	case "(*sync.Map).LoadOrStore":
 		m := e.syncMap(args[0])
 		for i, k := range m.keys {
-			if k == args[1].(IfaceV).V {
+			if e.keyEq(k, args[1].(IfaceV).V) {
 				return Tuple{m.vals[i], true}, true
 			}
 		}
@@ -449,6 +449,19 @@ func (e *Engine) stub8(fn *ssa.Function, args []any) (any, bool) {
 		return nil, true
 	}
 	return nil, false
+}
+
+// keyEq: equality of two map keys; strings (possibly symbolic) are compared by the solver, everything else by identity.
+func (e *Engine) keyEq(a, b any) bool {
+	switch a.(type) {
+	case string, SymStr:
+		switch b.(type) {
+		case string, SymStr:
+			return e.branch(e.binop(token.EQL, a, b, nil))
+		}
+		return false
+	}
+	return a == b
 }
 
 var syncMaps = map[*any]*MapV{}
